@@ -85,7 +85,7 @@ Definition demo_ops : list (ctx * cop) :=
   [ (mkC 1000 5, OSubmit 0 (CRegistry 1 7)); (mkC 1000 5, OVote 0 1 1); (mkC 1000 5, OEndBlock);
     (mkC 1300 6, OVote 0 1 3);     (* at the end time (not after it): accepted, replaces the yes vote *)
     (mkC 1300 6, OVote 0 1 1);     (* ... and is replaced again *) (mkC 1300 6, OEndBlock); (mkC 1310 7, OEndBlock); (mkC 1310 8, OEndBlock) ].
-Definition demo_final : cstate := run world ccontent cext (c_params false decide_q) demo_ops (init w_demo).
+Definition demo_final : cstate := run world ccontent cext (c_params (mkF false true false) decide_q) demo_ops (init w_demo).
 
 Lemma demo_applied_once :
   n_applied world ccontent 1 (log demo_final) = 1%nat
@@ -143,9 +143,9 @@ Proof.
 Qed.
 
 Lemma chk_electorate_matches : forall w ct, (vote_perm ct =? 0) = false ->
-  eligible w ct = w_nvoters w ct /\ veto_capable w ct = w_nveto w ct.
+  eligible w ct = w_nvoters w ct /\ forall f, veto_capable w ct = w_nveto f w ct.
 Proof.
-  intros w ct H. unfold eligible, veto_capable, w_nvoters, w_nveto, w_voters. rewrite H. split; [reflexivity|].
+  intros w ct H. unfold eligible, veto_capable, w_nvoters, w_nveto, w_voters. rewrite H. split; [reflexivity|]. intros f. rewrite andb_false_r.
   rewrite filter_filter_len. reflexivity.
 Qed.
 
@@ -209,19 +209,19 @@ Qed.
    clauses, evaluated -- as the checker does -- on the sorted votes and the world at the tally *)
 Lemma chk_passed_sound : forall w id ct vend eend minv res fin nap vs,
   (vote_perm ct =? 0) = false -> NoDup (map fst vs) ->
-  let tl := tally_of vs (w_nveto w ct) in
+  let tl := tally_of vs (w_nveto (f_dyn_veto tree_flags) w ct) in
   is_quorum (w_quorum w ct) (t_total tl) (w_nvoters w ct) = Ok true ->
-  final_result world ccontent cext (c_params durations_error_returned decide_q) true tl = Enactment ->
+  final_result world ccontent cext (c_params tree_flags decide_q) true tl = Enactment ->
   pass_clauses w (mkR id ct vend eend minv res fin nap (sort_votes vs)) = [].
 Proof.
   intros w id ct vend eend minv res fin nap vs Hd Hnd tl Hq Hres.
-  apply (final_result_enactment world ccontent cext (c_params durations_error_returned decide_q)) in Hres;
+  apply (final_result_enactment world ccontent cext (c_params tree_flags decide_q)) in Hres;
     [|intros t; apply decide_q_range].
   destruct Hres as [_ Hpass]. cbn [decide c_params] in Hpass.
   apply decide_q_passed_iff in Hpass; [|apply tally_of_wf]. destruct Hpass as [Hmaj Hveto].
   apply is_quorum_exact in Hq. destruct Hq as [_ [_ Hq]]. symmetry in Hq. apply Z.leb_le in Hq.
   destruct (chk_electorate_matches w ct Hd) as [He Hv].
-  unfold pass_clauses. cbn [r_ct r_votes]. rewrite Hd, chk_quorum_matches, He, Hv.
+  unfold pass_clauses. cbn [r_ct r_votes]. rewrite Hd, chk_quorum_matches, He, (Hv (f_dyn_veto tree_flags)).
   assert (Hlen : Z.of_nat (List.length (sort_votes vs)) = t_total tl).
   { rewrite <- (filter_true_len (sort_votes vs)), sort_votes_count, filter_true_len by assumption. reflexivity. }
   assert (Hyes : nopt 1 (sort_votes vs) = t_yes tl) by (unfold nopt; rewrite sort_votes_count by assumption; reflexivity).
@@ -229,13 +229,13 @@ Proof.
   rewrite Hlen, Hyes, Hvt. cbn [t_vcap tl tally_of] in Hveto.
   replace (w_quorum w ct * w_nvoters w ct <=? t_total tl * PREC) with true by (symmetry; apply Z.leb_le; lia).
   replace (t_total tl <? 2 * t_yes tl) with true by (symmetry; apply Z.ltb_lt; lia).
-  replace ((w_nveto w ct =? 0) || (2 * t_veto tl <? w_nveto w ct)) with true; [reflexivity|].
+  replace ((w_nveto (f_dyn_veto tree_flags) w ct =? 0) || (2 * t_veto tl <? w_nveto (f_dyn_veto tree_flags) w ct)) with true; [reflexivity|].
   symmetry. apply orb_true_iff. destruct Hveto as [E|E]; [left; apply Z.eqb_eq; exact E|right; apply Z.ltb_lt; exact E].
 Qed.
 
 (* ---- the same at the level of histories of the instantiated model: the clauses the checker
    evaluates at a finalisation, at an application and at an accepted vote hold in every run *)
-Definition cP : params world ccontent cext := c_params durations_error_returned decide_q.
+Definition cP : params world ccontent cext := c_params tree_flags decide_q.
 
 Lemma chk_sound_finalisation : forall w0 ops id tl nv q mine cf af l1 l2 p,
   log (run world ccontent cext cP ops (init w0)) = l1 ++ EvFinal id Enactment tl nv q mine cf af :: l2 ->
@@ -250,7 +250,7 @@ Proof.
   destruct He as [p' [Hs' [_ [_ [Hv [Hm [Htl [Hnv [Hq [[qb [Hqb Hres]] _]]]]]]]]]].
   rewrite Hs in Hs'. inversion Hs'; subst p'. split; [apply andb_true_iff; split; apply Z.leb_le; assumption|].
   assert (Hqb' : qb = true) by (unfold final_result in Hres; destruct qb; [reflexivity|discriminate]).
-  subst qb nv q. subst tl. apply chk_passed_sound; auto.
+  subst qb. apply quorum_checked_true in Hqb. subst nv q. subst tl. apply chk_passed_sound; auto.
   apply votes_of_nodup.
 Qed.
 
